@@ -5,6 +5,10 @@ PI = 'v1::ParametricInstance'; INST = 'v1::Instance'
 FIELDS = ['description', 'objective', 'constraints', 'decision_variables', 'sense', 'constraint_hints', 'removed_constraints', 'decision_variable_dependency']
 
 
+# with_parameters is partial evaluation of every function: the kernels' case tables are part of C10
+RELIES_ON = {'C03': ['C03.linear', 'C03.quadratic', 'C03.polynomial', 'C03.delegate']}
+
+
 def check(ctx):
     body = ctx.method('C10.anchor/with_parameters', PI, 'with_parameters')
     if body is not None:
